@@ -53,12 +53,12 @@ def mapE {α β ε : Type} (f : α → Except ε β) : List α → Except ε (Li
 
 /-! ## Values and masks -/
 
-/-- A value inside a batch.  `seq` stands for every array-like (`list`, `tuple`, `ndarray`);
-inside a `dict` that is masked by broadcasting, a `seq` is an ndarray leaf. -/
+/-- A value inside a batch.  `seq arr xs` is an array-like: a numpy array (`arr = true`; the elements
+of a multi-dimensional array are arrays again) or a `list` / `tuple` (`arr = false`). -/
 inductive Val where
   | leaf (v : Int)
   | null
-  | seq (xs : List Val)
+  | seq (arr : Bool) (xs : List Val)
   | map (kvs : List (String × Val))
   deriving Repr, Inhabited
 
@@ -82,7 +82,7 @@ mutual
 def Val.fill (r : Int) : Val → Val
   | .leaf _ => .leaf r
   | .null => .leaf r
-  | .seq xs => .seq (fillList r xs)
+  | .seq arr xs => .seq arr (fillList r xs)
   | .map kvs => .map kvs
 def fillList (r : Int) : List Val → List Val
   | [] => []
@@ -94,7 +94,7 @@ mutual
 def Val.shape? : Val → Option (List Nat)
   | .leaf _ => some []
   | .null => some []
-  | .seq xs =>
+  | .seq _ xs =>
     match shapes xs with
     | [] => some [0]
     | some s :: rest => if rest.all (· == some s) then some ((rest.length + 1) :: s) else none
@@ -125,13 +125,13 @@ def replBits {α : Type} (r : α → α) : List Bool → List α → List α
 axis in both modes — after the repair of finding F-C02-where).  A length mismatch is an
 `IndexError` / broadcast `ValueError` (numpy's broadcasting of length-1 operands is outside the model). -/
 def applyNp (repl : Option Int) (bits : List Bool) (xs : List Val) : Except ErrKind Val :=
-  match (Val.seq xs).shape? with
+  match (Val.seq true xs).shape? with
   | none => .error .value
   | some _ =>
     if bits.length ≠ xs.length then .error (if repl.isSome then .value else .index)
     else match repl with
-      | none => .ok (.seq (filterBits bits xs))
-      | some r => .ok (.seq (replBits (Val.fill r) bits xs))
+      | none => .ok (.seq true (filterBits bits xs))
+      | some r => .ok (.seq true (replBits (Val.fill r) bits xs))
 
 mutual
 /-- tree.py:181-189: an array mask applied to a `dict`: every (ndarray) leaf is masked -/
@@ -140,8 +140,8 @@ def bcastNp (repl : Option Int) (bits : List Bool) : Val → Except ErrKind Val
     match bcastNpKvs repl bits kvs with
     | .error e => .error e
     | .ok r => .ok (.map r)
-  | .seq xs => applyNp repl bits xs
-  | _ => .error .type
+  | .seq true xs => applyNp repl bits xs          -- an ndarray leaf
+  | _ => .error .type                             -- a list inside the dict is descended to its scalars: TypeError
 def bcastNpKvs (repl : Option Int) (bits : List Bool) :
     List (String × Val) → Except ErrKind (List (String × Val))
   | [] => .ok []
@@ -154,11 +154,23 @@ def bcastNpKvs (repl : Option Int) (bits : List Bool) :
       | .ok r => .ok ((k, v') :: r)
 end
 
+/-- tree.py:155-162: the element-wise result keeps the container kind; for an ndarray that is
+`np.asarray(result)`, which raises on a ragged result -/
+def rewrap (arr : Bool) (ys : List Val) : Except ErrKind Val :=
+  if arr then
+    match (Val.seq true ys).shape? with
+    | none => .error .value
+    | some _ => .ok (.seq true ys)
+  else .ok (.seq false ys)
+
 mutual
 /-- tree.py:108-195 `apply_mask(items, masks=m, replace_false_with=repl)` for Python-level masks -/
 def applyMask (repl : Option Int) : Val → Mask → Except ErrKind Val
   | x, .tt => .ok x                                                   -- :131 `masks == True`
-  | .seq xs, .seq ms => (applySeq repl xs ms).map .seq                 -- :134, 140-162
+  | .seq arr xs, .seq ms =>                                           -- :134, 140-162
+    match applySeq repl xs ms with
+    | .error e => .error e
+    | .ok ys => rewrap arr ys
   | .map kvs, .map mkvs => (applyMap repl kvs mkvs).map .map           -- :163-177
   | .map kvs, .seq ms => (bcastKvs repl kvs ms).map .map               -- :181-189
   | _, _ => .error .type                                              -- :190-194
@@ -195,10 +207,13 @@ termination_by mkvs => (sizeOf mkvs, sizeOf kvs)
 def bcastKvs (repl : Option Int) : List (String × Val) → List Mask →
     Except ErrKind (List (String × Val))
   | [], _ => .ok []
-  | (k, .seq xs) :: rest, ms =>
+  | (k, .seq true xs) :: rest, ms =>                 -- an ndarray leaf
     match applySeq repl xs ms with
     | .error e => .error e
-    | .ok ys => (bcastKvs repl rest ms).map ((k, Val.seq ys) :: ·)
+    | .ok ys =>
+      match rewrap true ys with
+      | .error e => .error e
+      | .ok y => (bcastKvs repl rest ms).map ((k, y) :: ·)
   | (k, .map kvs) :: rest, ms =>
     match bcastKvs repl kvs ms with
     | .error e => .error e
@@ -212,7 +227,7 @@ def applyTop (repl : Option Int) (x : Val) : TopMask → Except ErrKind Val
   | .gen m => applyMask repl x m
   | .np bits =>
     match x with
-    | .seq xs => applyNp repl bits xs
+    | .seq _ xs => applyNp repl bits xs
     | .map kvs =>
       match bcastNpKvs repl bits kvs with
       | .error e => .error e
@@ -307,7 +322,7 @@ def toMask (n : Nat) (idx : List Nat) : List Bool := (List.range n).map (fun j =
 
 /-- an iterable feature column -/
 def Val.asSeq : Val → Except ErrKind (List Val)
-  | .seq xs => .ok xs
+  | .seq _ xs => .ok xs
   | _ => .error .type
 
 /-- `SliceKey(self.slice_name, slice_value)` (tree_fns.py:365-373) -/
